@@ -5,6 +5,7 @@ import (
 	"log/slog"
 	"net/http"
 	"reservoir/utils/typeutils"
+	"strings"
 	"time"
 )
 
@@ -106,6 +107,8 @@ func ParseHeaderDirective(header http.Header) *HeaderDirectives {
 				slog.Debug("Error parsing Range header", "error", err, "value", value)
 			}
 		case "Cache-Control":
+			// Several Cache-Control lines are equivalent to one comma-separated list
+			value = strings.Join(values, ",")
 			if cc, err := parseCacheControl(value); err == nil {
 				hd.CacheControl.value = typeutils.Some(cc)
 			} else {
